@@ -450,4 +450,77 @@ Proof. induction evs as [|e evs IH]; intros s H; [exact H|]. cbn [fold_left]. ap
 Theorem inv_run evs : WInv (w_run evs).
 Proof. apply inv_fold. exact inv_init. Qed.
 
+(* ---- consequences --------------------------------------------------------------------------- *)
+
+Lemma w_at_most_once evs : NoDup (map r_task (w_runs (w_run evs))).
+Proof. pose proof (inv_run evs) as HI. apply (NoDup_app_r (w_queue (w_run evs))). apply (i_nd _ _ HI). Qed.
+
+Lemma w_rejected_never_runs evs sb :
+  In sb (w_subs (w_run evs)) -> s_res sb <> ROk -> ~ In (s_task sb) (map r_task (w_runs (w_run evs))).
+Proof.
+  intros Hin Hr Hran. pose proof (inv_run evs) as HI.
+  destruct (i_pl_ok _ _ HI (s_task sb)) as (sb' & Hin' & Et & Er).
+  { left. apply in_or_app. right. exact Hran. }
+  assert (sb' = sb) by (eapply NoDup_map_inj; [apply (i_subs_nd _ _ HI)|exact Hin'|exact Hin|exact Et]).
+  subst sb'. contradiction.
+Qed.
+
+Lemma w_close_waits evs c sb :
+  In c (w_clos (w_run evs)) -> In sb (w_subs (w_run evs)) -> s_res sb = ROk ->
+  exists r, In r (w_runs (w_run evs)) /\ r_task r = s_task sb /\ r_e r < l_e c.
+Proof.
+  intros Hc Hin Hr. pose proof (inv_run evs) as HI. pose proof (i_close _ _ HI) as HC.
+  unfold close_inv in HC. destruct (w_close (w_run evs)).
+  - destruct HC as (_ & E). rewrite E in Hc. destruct Hc.
+  - destruct HC as (_ & E & _). rewrite E in Hc. destruct Hc.
+  - destruct HC.
+  - destruct HC as (_ & E & _). rewrite E in Hc. destruct Hc.
+  - destruct HC as (_ & Hq & Hex & cb & ce & E & _ & _ & Hruns). rewrite E in Hc.
+    destruct Hc as [<-|[]]. cbn [l_e].
+    destruct (i_ok_pl _ _ HI (s_task sb)) as [Hpl|(i & Hi)].
+    + exists sb. auto.
+    + rewrite Hq in Hpl. cbn [app] in Hpl. unfold ran in Hpl. apply in_map_iff in Hpl.
+      destruct Hpl as (r & Er & Hr'). exists r. repeat split; auto.
+    + exfalso. unfold w_k in Hi. destruct (all_exited_nth _ Hex i) as [E0|E0]; rewrite E0 in Hi; discriminate.
+Qed.
+
+Hypothesis kind_worker : c_kind cf = KWorker.
+
+Theorem w_monitor evs : C37_monitor (w_hist (w_run evs)) = 0.
+Proof.
+  assert (A : allowed 0 (C37_monitor (w_hist (w_run evs)))).
+  { apply monitor_allowed; [discriminate| | | | |].
+    - apply ok_once_intro. unfold terminal_ids, w_hist. cbn [h_runs h_cans map]. rewrite app_nil_r. apply w_at_most_once.
+    - apply ok_rejected_intro. intros sb Hin Hr. unfold terminal_ids, w_hist. cbn [h_runs h_cans map]. rewrite app_nil_r.
+      apply w_rejected_never_runs; [exact Hin|]. intro E. rewrite E in Hr. discriminate.
+    - reflexivity.
+    - unfold ok_mailbox, w_hist. cbn [h_cfg]. rewrite kind_worker. reflexivity.
+    - intros c Hc _ sb Hin Hr. left. apply task_code_zero.
+      assert (Er : s_res sb = ROk) by (destruct (s_res sb); try discriminate; reflexivity).
+      destruct (w_close_waits evs c sb Hc Hin Er) as (r & Hr1 & Hr2 & Hr3).
+      eapply terminal_before_run; eauto. }
+  destruct A as [A|A]; exact A.
+Qed.
+
+Theorem w_accepts evs : C37_mismatch (w_hist (w_run evs)) = false.
+Proof.
+  pose proof (inv_run evs) as HI. unfold C37_mismatch. apply negb_false_iff.
+  repeat (apply andb_true_iff; split).
+  - apply nodupb_NoDup. apply (i_subs_nd _ _ HI).
+  - apply forallb_forall. intros sb Hin. apply N.ltb_lt. apply (i_subs _ _ HI sb Hin).
+  - apply forallb_forall. intros r Hin. apply N.ltb_lt. apply (i_runs _ _ HI r Hin).
+  - apply forallb_forall. intros c Hc. apply N.ltb_lt. cbn [w_hist h_clos] in Hc.
+    pose proof (i_close _ _ HI) as HC. unfold close_inv in HC. destruct (w_close (w_run evs)).
+    + destruct HC as (_ & E). rewrite E in Hc. destruct Hc.
+    + destruct HC as (_ & E & _). rewrite E in Hc. destruct Hc.
+    + destruct HC.
+    + destruct HC as (_ & E & _). rewrite E in Hc. destruct Hc.
+    + destruct HC as (_ & _ & _ & cb & ce & E & Hlt & _). rewrite E in Hc. destruct Hc as [<-|[]]. exact Hlt.
+  - reflexivity.
+  - unfold batch_size_ok. apply forallb_forall. intros r Hin. apply N.ltb_lt.
+    destruct (i_runs _ _ HI r Hin) as (_ & _ & E). rewrite E. lia.
+  - unfold shards_ok. apply forallb_forall. intros sb Hin. apply N.ltb_lt.
+    destruct (i_subs _ _ HI sb Hin) as (_ & _ & _ & E). rewrite E. lia.
+Qed.
+
 End WorkerProof.
